@@ -284,6 +284,10 @@ def run_script(ss, sc, saved):
     obs['bus_u'] = [int(x) for x in ss.Bus.u.v]
     obs['edges_end'] = edges_now(ss)
     try:
+        obs['conn_as_left'] = conn_obs(ss)       # what the code itself left behind, before the harness asks again
+    except Exception as e:      # noqa
+        obs['conn_as_left'] = {'error': err_kind(e)}
+    try:
         ss.connectivity(info=False)
         obs['conn_end'] = conn_obs(ss)
     except Exception as e:      # noqa
@@ -642,8 +646,18 @@ def oracle_script(topo, sc, obs):
                         bad.append(('bus-off-device-stays-on', 'device on bus %r stays on after the bus was switched off and act() ran' % hit[0]))
                 elif got_off and not want_off:
                     bad.append(('bus-off-extra-device', 'a device not attached to any switched-off bus was turned off'))
-    # the islands reported after the scripts match the final graph
+    # act() has switched devices: the islands it leaves behind are those of the statuses it has just written
     n = topo['n']
+    left = obs.get('conn_as_left')
+    # (only when the last act() had something to do: otherwise it returns at once and says nothing about islands)
+    acted_last = len(obs['snaps']) >= 2 and obs['snaps'][-2][4] == 1 and any(obs['snaps'][-2][3])
+    if acted_last and left is not None and 'error' not in left and 'error' not in obs['conn_end']:
+        if sorted(sorted(x) for x in left['sets']) != sorted(sorted(x) for x in obs['conn_end']['sets']) or \
+                sorted(left['islanded']) != sorted(obs['conn_end']['islanded']):
+            bad.append(('stale-islands-after-act', 'after ConnMan.act() switched devices off, Bus.islanded_buses / island_sets still '
+                        'describe the old statuses (%r / %r; a fresh connectivity check gives %r / %r)'
+                        % (left['islanded'], left['sets'][:3], obs['conn_end']['islanded'], obs['conn_end']['sets'][:3])))
+    # the islands reported after the scripts match the final graph
     if 'error' not in obs['conn_end']:
         for key, what in oracle_connectivity(n, obs['edges_end'], [], dict(obs['conn_end'], nosw=list(range(len(obs['conn_end']['sets']))), msw=[])):
             bad.append((key, 'after act(): ' + what))
